@@ -35,7 +35,10 @@ func (c ChainCfg) YAML() string {
 	sb.WriteString(c.Problem)
 	sb.WriteString("slicing-problems:\n  - backtracepoints:\n      - package: \"vprog/rt$\"\n        method: \"^Sink[S2]?$\"\n")
 	sb.WriteString(c.TopLevel)
-	sb.WriteString("options:\n  log-level: 1\n")
+	sb.WriteString("options:\n")
+	if !strings.Contains(c.Extra, "log-level:") {
+		sb.WriteString("  log-level: 1\n")
+	}
 	fmt.Fprintf(&sb, "  field-sensitive: %v\n  summarize-on-demand: %v\n", c.FieldSens, c.OnDemand)
 	if c.PkgFilter != "" {
 		fmt.Fprintf(&sb, "  pkg-filter: %q\n", c.PkgFilter)
@@ -484,11 +487,31 @@ func Attribute(run *core.Run, misses []Miss, opts ChainOpts, accept func(o *Batc
 				run.IsKnown(sig)
 				continue
 			}
+			// Field-sensitive mode loses flows of multi-link chains on the pinned tree in a way that is not
+			// attributable link pair by link pair (see DESIGN, known finding "*multi-link@field-sensitive"):
+			// a multi-link minimal chain that fails ONLY under field-sensitive configurations is attributed to it.
+			if fsOnly(f[k]) && strings.Contains(k, ">") && known["*multi-link@field-sensitive"+sigSuffix] {
+				run.IsKnown("*multi-link@field-sensitive" + sigSuffix)
+				continue
+			}
 			mm := m
 			mm.Cfgs = f[k]
 			reportViolation(run, sig, mm, "minimal failing sub-chain of "+full)
 		}
 	}
+}
+
+// fsOnly reports whether every failing configuration has field sensitivity on.
+func fsOnly(cfgs []string) bool {
+	if len(cfgs) == 0 {
+		return false
+	}
+	for _, c := range cfgs {
+		if !strings.HasPrefix(c, "fs1") {
+			return false
+		}
+	}
+	return true
 }
 
 func firstLine(s string) string {
